@@ -587,3 +587,91 @@ def _autoshapes(ctx, prog, S, M):
     else:
         ctx.violation("R20.4", "CT_Shape.new_autoshape_sp", "template does not place the prst parameter in a:prstGeom/@prst",
                       file=f.file, line=f.line)
+
+    # -- R20.7 ------------------------------------------------------------------------------------------
+    ctx.rule("R20.7", "shape.adjustments holds one Adjustment of its own per guide of the preset's avLst, in order")
+    ac = prog.cls("pptx.shapes.autoshape", "AdjustmentCollection")
+    ia = ac.methods.get("_initialized_adjustments") if ac else None
+    adj = prog.cls("pptx.shapes.autoshape", "Adjustment")
+    if ia is None or adj is None:
+        raise AnalysisError("anchor vanished: AdjustmentCollection._initialized_adjustments / Adjustment")
+    from sa import paths as P_
+    from sa.inline import expand as _exp207
+
+    iax = _exp207(prog, ia, depth=3, local_only=True)
+    val = P_.value_aliases(iax)
+    key = "AdjustmentCollection._initialized_adjustments"
+    guide_names = sorted({g[0] for _n, (_kv, row, _ln) in rows.items() for g in (row.get("avLst") or ()) if isinstance(g, tuple) and g})
+    rets_ = [r for r in ast.walk(iax) if isinstance(r, ast.Return) and r.value is not None and not (
+        isinstance(r.value, (ast.List, ast.Tuple)) and not r.value.elts)]
+    verdict = None
+    for r in rets_:
+        e = r.value
+        if isinstance(e, ast.Name) and e.id in val:
+            e = val[e.id]
+        while isinstance(e, ast.Call) and dotted(e.func) in ("list", "tuple") and len(e.args) == 1:
+            e = e.args[0]
+            if isinstance(e, ast.Name) and e.id in val:
+                e = val[e.id]
+        src_txt = ast.unparse(e)
+        if isinstance(e, ast.Subscript) and (dotted(e.value) or "").split(".")[0] in ("cls", "self", "AutoShapeType", "AdjustmentCollection", "Adjustment"):
+            # the objects are taken out of a store that outlives the call (a class-level cache): every collection built from it holds
+            # the same Adjustment objects
+            verdict = ("violation", "the Adjustment objects come from `%s`, a store shared by every shape of the preset type (copying the list does "
+                       "not copy them): an actual value loaded for, or assigned through, one shape shows in the others" % src_txt[:70])
+            break
+        if isinstance(e, (ast.ListComp, ast.GeneratorExp)) and len(e.generators) == 1 and isinstance(e.elt, ast.Call) \
+                and (dotted(e.elt.func) or "").split(".")[-1] == "Adjustment":
+            g = e.generators[0]
+            it_src = P_.full(g.iter, val)
+            tn = [x.id for x in ast.walk(g.target) if isinstance(x, ast.Name)]
+            args_ = [dotted(a_) for a_ in e.elt.args]
+            import re as _re207
+
+            whole = _re207.fullmatch(r"(?:list|tuple)?\(?(?:[\w.]+\.)?default_adjustment_values\([^()]*\)\)?", it_src) is not None \
+                or _re207.fullmatch(r"autoshape_types\[[^\[\]]*\]\[['\"]avLst['\"]\]", it_src) is not None
+            if not whole:
+                verdict = ("error", "the source `%s` of the adjustments is not the preset's avLst" % it_src[:60])
+                break
+            if args_ != tn[:2] or len(tn) != 2:
+                verdict = ("error", "Adjustment(%s) is not built from (name, default) of the guide" % ", ".join(str(a_) for a_ in args_))
+                break
+            if g.ifs:
+                # a filter: evaluated on the guide names of the table
+                dropped, undec = [], False
+                for nm_ in guide_names:
+                    for t_ in g.ifs:
+                        class _S(ast.NodeTransformer):
+                            def visit_Name(self_, x):
+                                return ast.copy_location(ast.Constant(value=nm_), x) if x.id == tn[0] else x
+                        import copy as _copy
+
+                        tt = _S().visit(_copy.deepcopy(t_))
+                        try:
+                            ok_ = eval(compile(ast.fix_missing_locations(ast.Expression(body=tt)), "<filter>", "eval"), {"__builtins__": {}}, {})  # noqa: S307 - constants only
+                        except Exception:  # noqa: BLE001
+                            undec = True
+                            break
+                        if not ok_:
+                            dropped.append(nm_)
+                            break
+                if undec:
+                    verdict = ("error", "the filter `%s` on the guides is not evaluated" % ast.unparse(g.ifs[0])[:60])
+                elif dropped:
+                    verdict = ("violation", "guides named %s of the presets' avLst get no Adjustment (filter `%s`): shape.adjustments is shorter than "
+                               "the definition for the presets that have them" % (sorted(set(dropped)), ast.unparse(g.ifs[0])[:50]))
+                else:
+                    verdict = ("ok", "filter keeps every guide of the table")
+                break
+            verdict = ("ok", "one Adjustment(name, default) per guide, in order")
+            break
+        verdict = ("error", "how the list of adjustments is built is not recognised (`%s`)" % src_txt[:70])
+        break
+    if verdict is None:
+        ctx.error(key, "no non-empty return recognised")
+    elif verdict[0] == "ok":
+        ctx.ok("R20.7", key, sample={"built": verdict[1], "guide_names_in_table": guide_names[:8]})
+    elif verdict[0] == "error":
+        ctx.error(key, verdict[1])
+    else:
+        ctx.violation("R20.7", key, verdict[1], file=ia.file, line=ia.line)
